@@ -1,20 +1,10 @@
 (** decoder.go as translated from the Go source (Generated/Src.v) computes what the hand-written model computes. *)
 From Coq Require Import ZifyN ZifyNat ZifyBool String.
-From OtpV Require Import Prelude Sha Tables GoSem Errors Decoder Derive Otp Suite Src SrcLift.
+From OtpV Require Import Prelude Sha Tables GoSem Errors Decoder Derive Otp Suite Src SrcLift SrcTop.
 Open Scope N_scope.
 Ltac Zify.zify_post_hook ::= Z.div_mod_to_equations.
 
 (** ---------- DecodeSecret ---------- *)
-Lemma to_upper_u_ascii s : Forall (fun c => c < 128) s -> to_upper_u s = to_upper s.
-Proof.
-  induction s as [|c t IH]; intros H; [reflexivity|].
-  apply Forall_cons_iff in H. destruct H as [Hc Ht]. specialize (IH Ht).
-  unfold to_upper. cbn [map]. fold (to_upper t). rewrite <- IH.
-  destruct t as [|d t'].
-  - destruct c as [|p]; [reflexivity|]. do 8 (destruct p as [p|p|]; try reflexivity; try lia).
-  - destruct c as [|p]; [reflexivity|]. do 8 (destruct p as [p|p|]; try reflexivity; try lia).
-Qed.
-
 Lemma bad_char_cond c :
   (((((N.ltb c 65) || (N.ltb 90 c)) && ((N.ltb c 97) || (N.ltb 122 c))) && ((N.ltb c 50) || (N.ltb 55 c))) && (negb (N.eqb c 61)))
   = negb (in_alphabet_ci c).
